@@ -59,10 +59,18 @@ def gen_case(rng, ci, quick):
         if rng.random() < 0.2:
             ops += ["T:%d" % k]
     # DELETE with a quit message carrying control characters (deletesession.go cuts it the same way)
-    k = rng.randrange(ns)
-    qm = rng.choice(["bye" + rng.choice(CTL) + FORGED, rng.choice(CTL) + "x", "q" * rng.randint(400, 700) + rng.choice(CTL) + FORGED,
-                     "plain quit", ""])
-    ops += ["D:%d:%s" % (k, hx(json.dumps({"Quitmessage": qm}))), "Y"]
+    # (no body limit in that handler: quit messages beyond 2048 bytes are decoded; a non-string Quitmessage answers 500)
+    slots = list(range(ns))
+    rng.shuffle(slots)
+    for k in slots[:rng.choice([1, 2])]:
+        qm = rng.choice(["bye" + rng.choice(CTL) + FORGED, rng.choice(CTL) + "x", "q" * rng.randint(400, 700) + rng.choice(CTL) + FORGED,
+                         "bye\x00" + FORGED, "\x00", "\r\n\x00", rng.choice(CTL) * rng.randint(2, 5),        # NUL in particular; only control characters
+                         "q" * rng.randint(2100, 5000) + rng.choice(CTL) + FORGED, "q" * 3000,                 # beyond the POST handler's 2048-byte limit
+                         "ä€😀" + rng.choice(CTL) + "tail", "plain quit", ""])
+        body = json.dumps({"Quitmessage": qm})
+        if rng.random() < 0.12:
+            body = rng.choice(['{"Quitmessage": 5}', '{"Quitmessage": ["a"]}', '{"Quitmessage": {"x": "y"}}', '{"Quitmessage": "unterminated'])   # -> 500
+        ops += ["D:%d:%s" % (k, hx(body)), "Y"]
     ops.append("Z")
     return "post c%d " % ci + " ".join(ops)
 
@@ -184,6 +192,7 @@ def run_api_part(ck, replay):
         mism = [i for i in range(len(mins)) if i >= len(mout) or mout[i] != wants[i]]
     else:
         mout = []
+    ck.cov["api_model_disagreements"] = len(mism)      # Api/Post.v (post_handler, delete_handler) vs the committed entries
     ck.cov["api_histories"] = len(lines)
     ck.cov["api_posts_with_control_characters"] = posts
     ck.cov["api_output_lines_monitored"] = nlines
@@ -192,7 +201,9 @@ def run_api_part(ck, replay):
     ck.cov["rule"] = ck.cov.get("rule", "") + (" | API part: histories of 3 registered sessions in one channel on a single-node raft + real api.HTTP; each POSTs bodies whose Data "
                                               "holds CR/LF/NUL (single and pairs) early, around bytes 440-600, beyond byte 512 behind 200-900 ignored middle parameters, inside "
                                               "command/target/middle parameters, and in bodies close to the 2048-byte limit; after each POST the output batch of the newest entry is "
-                                              "monitored (<=510 bytes, no CR/LF/NUL, prefix + command) and the committed entry is compared with Api/Post.v (cut_line)")
+                                              "monitored (<=510 bytes, no CR/LF/NUL, prefix + command) and the committed entry is compared with Api/Post.v (post_handler / cut_line); "
+                                              "1-2 DELETE requests per history with quit messages holding CR/LF/NUL (first, only, late, beyond 2048 bytes — that handler has no body "
+                                              "limit), non-string Quitmessage (500); the committed DeleteSession entry is compared with Api/Post.v (delete_handler)")
     seen = set()
     for ci, sig, text in monfail:
         if sig in seen:
